@@ -358,7 +358,7 @@ func writeEvidence(verif, prop, tier string, seed int, results []*HarnessResult,
 			labels = append(labels, l)
 		}
 		sort.Strings(labels)
-		hsum = append(hsum, map[string]interface{}{"harness": hr.Name, "pkg": hr.Pkg, "paths": hr.Paths, "paths_killed_by_assume": hr.Killed,
+		hsum = append(hsum, map[string]interface{}{"harness": hr.Name, "pkg": hr.Pkg, "paths": hr.Paths, "paths_killed_by_assume": hr.Killed, "paths_ended_by": hr.KillWhy,
 			"paths_panicked": hr.Panics, "solver_queries": hr.Queries, "solver_s": hr.SolverTime.Seconds(), "wall_s": hr.Wall.Seconds(),
 			"assertions_checked": hr.AssertsChk, "assertions_discharged": hr.AssertsDis, "reach_labels_witnessed": labels,
 			"witness_replays": len(hr.WitnessRes)})
